@@ -109,6 +109,7 @@ const (
 	c05YAML   c05API = "UnmarshalYamlBytes"
 	c05Map    c05API = "UnmarshalJsonMap"
 	c05Reader c05API = "UnmarshalJsonReader"
+	c05YAMLR  c05API = "UnmarshalYamlReader"
 	c05Key    c05API = "UnmarshalKey"
 	c05Form   c05API = "NewUnmarshaler(form,WithStringValues).Unmarshal"
 	c05Path   c05API = "NewUnmarshaler(path,WithStringValues).Unmarshal"
@@ -143,7 +144,7 @@ func (cm *c05Mon) desc(api c05API, s *c05gen.Shape, payload []byte, note string)
 }
 
 func c05Payload(api c05API, doc map[string]any) []byte {
-	if api == c05YAML {
+	if api == c05YAML || api == c05YAMLR {
 		return c05gen.YAML(doc)
 	}
 	return c05gen.JSON(doc)
@@ -161,6 +162,8 @@ func c05Raw(api c05API, s *c05gen.Shape, payload []byte) c05Out {
 			return UnmarshalYamlBytes(payload, v)
 		case c05Reader:
 			return UnmarshalJsonReader(bytes.NewReader(payload), v)
+		case c05YAMLR:
+			return UnmarshalYamlReader(bytes.NewReader(payload), v)
 		case c05Map:
 			mm, err := c05Decode(payload)
 			if err != nil {
@@ -286,7 +289,7 @@ func c05Judge(cm *c05Mon, api c05API, c *c05gen.Case, doc map[string]any, out c0
 		m.Violate(c05PanicSig(out.pv, out.stack), d, "panic: %v\n%s", out.pv, c05TrimStack(out.stack))
 		return true
 	}
-	if api == c05YAML && c05gen.HasNull(doc) {
+	if (api == c05YAML || api == c05YAMLR) && c05gen.HasNull(doc) {
 		// a YAML null is judged through the JSON/YAML equivalence only (one root cause, one signature)
 		return false
 	}
@@ -416,6 +419,10 @@ func c05Scenario(m *vk.M, idx int, quickDocs int) {
 	m.Count("env-vars-set", int64(c05SetEnv(shape)))
 	api := apis[0]
 	withYAML := cfg.TagKey == "json"
+	yapi := c05YAML
+	if idx%3 == 0 {
+		yapi = c05YAMLR
+	}
 	var accepted, rejected int
 	defer func() {
 		m.Case(shape.String(), accepted > 0 && rejected > 0)
@@ -436,8 +443,8 @@ func c05Scenario(m *vk.M, idx int, quickDocs int) {
 			return
 		}
 		if withYAML {
-			y, dy := c05Call(cm, c05YAML, shape, c.Doc, "class=valid")
-			if c05Judge(cm, c05YAML, c, c.Doc, y, dy, "valid", nil) || c05Equiv(cm, c, c.Doc, out, y, ds, "valid document") {
+			y, dy := c05Call(cm, yapi, shape, c.Doc, "class=valid")
+			if c05Judge(cm, yapi, c, c.Doc, y, dy, "valid", nil) || c05Equiv(cm, c, c.Doc, out, y, ds, "valid document") {
 				return
 			}
 		}
@@ -455,8 +462,8 @@ func c05Scenario(m *vk.M, idx int, quickDocs int) {
 			note(fo)
 			bad := c05Judge(cm, api, c, c.Doc, fo, fd, "fault", ft)
 			if !bad && withYAML {
-				y, dy := c05Call(cm, c05YAML, shape, c.Doc, "class=fault:"+ft.Kind)
-				bad = c05Judge(cm, c05YAML, c, c.Doc, y, dy, "fault", ft) || c05Equiv(cm, c, c.Doc, fo, y, fd, "fault "+ft.Kind)
+				y, dy := c05Call(cm, yapi, shape, c.Doc, "class=fault:"+ft.Kind)
+				bad = c05Judge(cm, yapi, c, c.Doc, y, dy, "fault", ft) || c05Equiv(cm, c, c.Doc, fo, y, fd, "fault "+ft.Kind)
 			}
 			if m.WantSample() && idx%997 == 2 && k == 0 {
 				m.Sample(map[string]any{"class": "fault", "fault": ft.Desc, "shape": shape.String(), "doc": string(c05gen.JSON(c.Doc)), "observed": fo.String()})
@@ -475,8 +482,8 @@ func c05Scenario(m *vk.M, idx int, quickDocs int) {
 			if !bad && withYAML && k == 0 && c05gen.YAMLExact(c.Doc) {
 				// YAML sees the same tree; only panic-freedom and exactness are asserted here
 				// (number spellings such as 1.0 or 1e2 are legitimately read differently by the two parsers)
-				y, dy := c05Call(cm, c05YAML, shape, c.Doc, "class=adversarial")
-				bad = c05Judge(cm, c05YAML, c, c.Doc, y, dy, "free", ft)
+				y, dy := c05Call(cm, yapi, shape, c.Doc, "class=adversarial")
+				bad = c05Judge(cm, yapi, c, c.Doc, y, dy, "free", ft)
 				if !bad && c05gen.YAMLCanonical(c.Doc) {
 					// every number is spelled so that both parsers read the same number (plain decimal integers up
 					// to MaxUint64, float64-exact non-integers): whatever the right answer is, it must be the same
